@@ -109,6 +109,8 @@ def _worker_task(args):
         if tape is None and not r["violations"] and not r["error"]:
             r.pop("tape", None)  # keep IPC small; tapes are re-derivable from (seed, idx)
             r.pop("oplog", None)
+        if r.get("signatures"):
+            r["signatures"] = [x if isinstance(x, str) else hashlib.sha256(repr(x).encode()).hexdigest()[:16] for x in r["signatures"]]
         results.append(r)
     return results
 
@@ -301,6 +303,9 @@ def run_batch(check, tier, seed, nproc=None, quiet=False):
                         signatures.add(r["signature"])
                         if r.get("nontrivial"):
                             nontrivial_sigs.add(r["signature"])
+                    for s_ in r.get("signatures") or []:  # runs that contain many cases (enumerations)
+                        signatures.add(s_)
+                        nontrivial_sigs.add(s_)
                     if len(samples) < 4 and r.get("sample") is not None:
                         samples.append(r["sample"])
                     for v in r["violations"]:
